@@ -293,15 +293,15 @@ func (w *world) issue(tp *tokenPlan) {
 			}
 		case "hdr-whitespace":
 			spaced = true
-		case "hdr-b64-padded":
+		case "hdr-b64-padded": // signed over the padded text: a re-encoding, see jwtref.Token.Reencoded
 			hsegSuffix = "="
-			model.Compact = false
+			model.Compact, model.Reencoded = false, true
 		case "hdr-b64-newline":
 			hsegNewline = true
-			model.Compact = false
+			model.Compact, model.Reencoded = false, true
 		case "payload-b64-padded":
 			psegSuffix = "="
-			model.Compact = false
+			model.Compact, model.Reencoded = false, true
 		case "hs-with-public-key":
 			if k.mat.pub != nil {
 				setAlg("HS256")
@@ -462,16 +462,16 @@ func (w *world) issue(tp *tokenPlan) {
 		case "dot-extra-segment":
 			compact = compact + "." + []string{"AAAA", s, "e30"}[tp.p[0]%3]
 			model.Compact = false
-		case "nonalpha-sig-pad":
+		case "nonalpha-sig-pad": // the four re-encodings of the signature segment leave the signed text alone
 			compact += []string{"=", "==", "==="}[tp.p[0]%3]
-			model.Compact = false
+			model.Compact, model.Reencoded = false, true
 		case "nonalpha-sig-newline":
 			i := 1 + int(tp.p[0]%uint64(len(s)-1))
 			compact = h + "." + p + "." + s[:i] + []string{"\n", "\r", "\r\n"}[tp.p[1]%3] + s[i:]
-			model.Compact = false
+			model.Compact, model.Reencoded = false, true
 		case "nonalpha-sig-space":
 			compact = h + "." + p + "." + []string{" " + s, s + " ", s + "\t"}[tp.p[0]%3]
-			model.Compact = false
+			model.Compact, model.Reencoded = false, true
 		case "nonalpha-sig-stdalphabet":
 			switch {
 			case strings.Contains(s, "-"):
@@ -479,9 +479,9 @@ func (w *world) issue(tp *tokenPlan) {
 			case strings.Contains(s, "_"):
 				compact = h + "." + p + "." + strings.Replace(s, "_", "/", 1)
 			default:
-				compact += "+"
+				compact += "="
 			}
-			model.Compact = false
+			model.Compact, model.Reencoded = false, true
 		case "nonalpha-sig-unicode":
 			compact += []string{"é", "~", ",", "\x00"}[tp.p[0]%4]
 			model.Compact = false
@@ -552,42 +552,64 @@ func rawOpts(c map[string]any, typ *string) *jwt.RawJWTOptions {
 	return o
 }
 
-func (w *world) tinkIssue(tp *tokenPlan, k *wkey, claims map[string]any) (out string, err error) {
-	defer w.catch("issue", &err)
-	raw, err := jwt.NewRawJWT(rawOpts(claims, tp.typ))
+func (w *world) tinkIssue(tp *tokenPlan, k *wkey, claims map[string]any) (string, error) {
+	opts := rawOpts(claims, tp.typ) // harness code: outside the panic guard
+	var raw *jwt.RawJWT
+	var err error
+	func() {
+		defer w.catch("NewRawJWT", &err)
+		raw, err = jwt.NewRawJWT(opts)
+	}()
 	if err != nil {
 		return "", fmt.Errorf("NewRawJWT: %w", err)
 	}
+	var out string
 	if w.class == "mac" {
 		m := w.ksMAC
 		if !k.primary {
 			if k.oneMAC == nil {
-				h, err := handleOf(k)
-				if err != nil {
-					w.t.Fatalf("harness: one-key handle: %v", err)
+				h, herr := handleOf(k)
+				if herr != nil {
+					w.t.Fatalf("harness: one-key handle: %v", herr)
 				}
-				if k.oneMAC, err = jwt.NewMAC(h); err != nil {
+				func() {
+					defer w.catch("NewMAC", &err)
+					k.oneMAC, err = jwt.NewMAC(h)
+				}()
+				if err != nil {
 					return "", fmt.Errorf("NewMAC: %w", err)
 				}
 			}
 			m = k.oneMAC
 		}
-		return m.ComputeMACAndEncode(raw)
+		func() {
+			defer w.catch("ComputeMACAndEncode", &err)
+			out, err = m.ComputeMACAndEncode(raw)
+		}()
+		return out, err
 	}
 	s := w.ksSigner
 	if !k.primary {
 		if k.oneSign == nil {
-			h, err := handleOf(k)
-			if err != nil {
-				w.t.Fatalf("harness: one-key handle: %v", err)
+			h, herr := handleOf(k)
+			if herr != nil {
+				w.t.Fatalf("harness: one-key handle: %v", herr)
 			}
-			if k.oneSign, err = jwt.NewSigner(h); err != nil {
+			func() {
+				defer w.catch("NewSigner", &err)
+				k.oneSign, err = jwt.NewSigner(h)
+			}()
+			if err != nil {
 				return "", fmt.Errorf("NewSigner: %w", err)
 			}
 		}
 		s = k.oneSign
 	}
-	return s.SignAndEncode(raw)
+	func() {
+		defer w.catch("SignAndEncode", &err)
+		out, err = s.SignAndEncode(raw)
+	}()
+	return out, err
 }
 
 // checkIssued: a token made by SignAndEncode / ComputeMACAndEncode carries
@@ -728,14 +750,23 @@ func (w *world) checkAccepted(vj *jwt.VerifiedJWT, tp *tokenPlan, ctx string) {
 		}
 	}
 	var wantNames []string
-	for n, v := range want {
+	allNames := make([]string, 0, len(want))
+	for n := range want {
+		allNames = append(allNames, n)
+	}
+	sort.Strings(allNames) // the first difference reported must not depend on map order
+	for _, n := range allNames {
+		v := want[n]
 		switch n {
 		case "iss", "sub", "jti", "aud", "exp", "nbf", "iat":
 			continue
 		}
 		wantNames = append(wantNames, n)
-		kinds := map[string]bool{"string": vj.HasStringClaim(n), "number": vj.HasNumberClaim(n), "bool": vj.HasBooleanClaim(n),
-			"null": vj.HasNullClaim(n), "array": vj.HasArrayClaim(n), "object": vj.HasObjectClaim(n)}
+		kinds := []struct {
+			n   string
+			has bool
+		}{{"string", vj.HasStringClaim(n)}, {"number", vj.HasNumberClaim(n)}, {"bool", vj.HasBooleanClaim(n)},
+			{"null", vj.HasNullClaim(n)}, {"array", vj.HasArrayClaim(n)}, {"object", vj.HasObjectClaim(n)}}
 		var kind string
 		var same bool
 		switch x := v.(type) {
@@ -767,9 +798,9 @@ func (w *world) checkAccepted(vj *jwt.VerifiedJWT, tp *tokenPlan, ctx string) {
 			same = err == nil && bytes.Equal(nb, gb)
 		}
 		w.typesSeen[kind] = true
-		for kn, has := range kinds {
-			if has != (kn == kind) {
-				bad("custom-claim-kind", fmt.Sprintf("claim %q is a %s but Has%sClaim = %v", n, kind, kn, has))
+		for _, kd := range kinds {
+			if kd.has != (kd.n == kind) {
+				bad("custom-claim-kind", fmt.Sprintf("claim %q is a %s but Has(%s)Claim = %v", n, kind, kd.n, kd.has))
 				return
 			}
 		}
